@@ -613,7 +613,7 @@ fn c04_two_ports_ics_both_absent_v0_1() {
 
 // @verif property=C04 tier=thorough mem=24 timeout=5400
 // @encodes peppi::io::slippi::de::parse_event with two occupied ports: each character's events land in its own port's columns, whatever the event order
-// @symbolic 2500 frame id, payloads of 4 character events
+// @symbolic 2470 payloads of 4 character events and of Frame Start / Frame End (frame id concrete, §8.1)
 // @bound version 3.16.0, ports P2 and P4 occupied (slots 0 and 1), one frame, pre events in reverse port order
 // @assume state built by ParseState::verif_from_parts; column sets are a typed stack array
 // @stub alloc::fmt::format = returns an empty String
@@ -632,7 +632,7 @@ fn c04_two_ports_slot_mapping() {
 	let mut state = two_port_state(v, &mut store, [Port::P2, Port::P4]);
 	const PRE: usize = 1 + 6 + 58;
 	const POST: usize = 1 + 6 + 78;
-	let a: i32 = kani::any();
+	let a = -123i32;
 	let mut s_a: [u8; 13] = kani::any();
 	s_a[0] = 0x3A;
 	put_id(&mut s_a, a);
@@ -666,7 +666,7 @@ fn c04_two_ports_slot_mapping() {
 	kani::cover!(true, "reached");
 }
 
-// @verif property=C04,C01 tier=thorough mem=24 timeout=5400
+// @verif property=C04,C01:thorough tier=quick mem=16 timeout=3000
 // @encodes peppi::io::slippi::de::parse_event (old framing: a frame is opened by the first Frame Pre event carrying the next id) with two occupied ports, where the port that reports first was absent from the previous frame
 // @symbolic 1900 all Pre/Post payload bytes of 6 events
 // @bound version 0.1.0, ports P1 and P2 occupied, two consecutive frames: P1 absent from the first, both present in the second (P1's Frame Pre comes first)
